@@ -289,9 +289,10 @@ def r04_3(ctx, S, prog, crate):
                 if ok2:
                     other = [a for a in dd[1].args if const_int(a) != 1000][0]
                     srcs2 = b.prov.op_src(other)
-                    ctx.check(any(z.kind == "call" and z.a == "std::iter::Iterator::max_by_key" for z in srcs2) and nophi(srcs2) and
-                              any(z.kind == "call" and z.a == "stats::sample::RawSample::duration" for z in srcs2), "R04.3", [b.path, "slowest-thread"],
-                              "progress is not the slowest thread's timed section (%s)" % sorted(z.a for z in srcs2 if z.kind == "call"), c.line())
+                    from .sampling import slowest_duration
+                    ok_sl, found_sl = slowest_duration(prog, b, other)
+                    ctx.check(ok_sl, "R04.3", [b.path, "slowest-thread"],
+                              "progress is not the slowest thread's timed section (%s)" % found_sl, c.line())
     # RawSample::duration = end.duration_since(start, timer)
     rd = prog.body("stats::sample::RawSample::duration", crate)
     if ctx.anchor("R04.3", "RawSample::duration", 1 if rd else 0, 1):
@@ -318,6 +319,13 @@ def r04_4(ctx, prog, crate):
         if dflt == "default":
             zero = "std::option::Option::unwrap_or_default" in names or any(n.endswith("::default") for n in names) or \
                 any(z.kind == "fnitem" and str(z.a).endswith("::default") for z in ret)
+            ZERO = "time::fine_duration::FineDuration::ZERO"
+            if consts == {ZERO}:
+                zb = prog.bodies.get((crate, ZERO, -1))
+                zsrc = zb.prov.local_src(0) if zb is not None else set()
+                zero = zb is not None and any(z.kind == "const" and str(z.a).startswith("0_") or str(z.a) == "0" for z in zsrc) and \
+                    not any(z.kind == "const" and not (str(z.a).startswith("0_") or str(z.a) == "0") for z in zsrc)
+                consts = set()
             ctx.check(zero and not consts, "R04.4", [fn, "defaults-to-zero"], "%s() default: calls %s consts %s" % (fn, sorted(names), sorted(consts)), b.where(0))
             dd = prog.body("<time::fine_duration::FineDuration as std::default::Default>::default", crate)
             ctx.check(dd is not None, "R04.4", [fn, "FineDuration-default"], "no Default for FineDuration", None)
